@@ -710,7 +710,8 @@ def rule_G(ctx):
         return tab[(n2 - 1, n1 - 1)]
 
     def close(a, b):
-        return isinstance(a, (int, float)) and not isinstance(a, bool) and abs(a - b) <= 1e-9 * max(1.0, abs(b))
+        # relative (scores of tracks given in very small units are tiny numbers): 1e-9 of the larger, exact zero matches only (almost) zero
+        return isinstance(a, (int, float)) and not isinstance(a, bool) and abs(a - b) <= 1e-9 * max(abs(a), abs(b), 1e-290)
     found = {}
     n_cases = 0
 
@@ -828,6 +829,8 @@ def rule_G(ctx):
     for _ in range(60 if ctx.tier == 'thorough' else 24):
         mk_ = lambda: [(rnd.randint(0, 3) * 100.0, rnd.randint(0, 2) * 100.0 + rnd.randint(0, 3) * 0.001, 0.0) for _k in range(rnd.randint(2, 4))]
         near.append((mk_(), mk_()))
+    # the same jittered lattice in a very small unit (coordinates around 1e-6, differences of 1e-11): ties are ties at every scale
+    near += [([tuple(c_ * 1e-8 for c_ in p_) for p_ in a_], [tuple(c_ * 1e-8 for c_ in p_) for p_ in b_]) for a_, b_ in near[-12:]]
     for t1, t2 in near:
         for mode_name, p in (('MODE_MATCHING_DTW', 1), ('MODE_MATCHING_DTW', 2), ('MODE_MATCHING_FDTW', 1), ('MODE_MATCHING_FRECHET', 1)):
             one(t1, t2, mode_name, p, 2, optimum(t1, t2, INFP if mode_name == 'MODE_MATCHING_FRECHET' else p, 2))
